@@ -150,6 +150,7 @@ def new_target_kernel():
 def summary_rules(h: int, served_head: str, twin: bool = False, real: bool = False):
     """Stated target / height / time against the parent, with the retarget kernel replaced by a recorder."""
     W = World(real=real, h=h, served_head=served_head)
+    W.sample_grant = True        # the adversary grinds sampled indices that exist: the height rule itself must refuse
     dt, cons = W.dt, W.cons
     boundary = (h % RETARGET == 0)
     NT = bytes([0x4E, 0x54]) + bytes([0xEE]) * 30
@@ -531,6 +532,13 @@ def assembly(h: int, with_tx: bool, twin: bool = False, real: bool = False):
     return check_assembly, {"now": 3000, "now2": 3001, "nonce": 1, "pts": 2000, "sp": 1000, "ov": 3}
 
 
+def miner_after_head_change(twin: bool = False, real: bool = False):
+    """The node's own assembly as the miner drives it: a candidate handed out after the head has changed is built on the new
+    head and is later than it (harness shared with C12)."""
+    from harness import c12_mining
+    return c12_mining.stale_candidate(twin=twin, real=real)
+
+
 def obligations(tier: str, known: List[str]) -> List[Ob]:
     thorough = tier == "thorough"
     T = 1500 if thorough else 600
@@ -563,6 +571,7 @@ def obligations(tier: str, known: List[str]) -> List[Ob]:
         for wt in (False, True):
             obs.append(Ob("f.assembly[h=%d,pool=%d]" % (h, int(wt)), C_OWN, "assembly", {"h": h, "with_tx": wt}, timeout=T))
     obs.append(twin_of(obs[-1], timeout=300))
+    obs.append(Ob("f.assembly[miner, candidate handed out after the head changed]", C_OWN, "miner_after_head_change", {}, timeout=T))
     return obs
 
 
